@@ -4,9 +4,9 @@ SPEC = {
     "gen": ["muxsorts"],
     "streams": [
         {"name": "mux-c01", "cmd": "mux",
-         "args": {"quick": ["-mode", "c01", "-blocks", "20", "-runs", "4", "-tieruns", "3", "-tieblocks", "14", "-procruns", "1", "-rtruns", "2"],
-                  "thorough": ["-mode", "c01", "-blocks", "200", "-runs", "6", "-tieruns", "6", "-tieblocks", "60", "-procruns", "2", "-rtruns", "3"]},
-         "search_args": ["-mode", "c01", "-blocks", "40", "-runs", "8", "-tieruns", "6", "-tieblocks", "30", "-procruns", "1", "-rtruns", "3"],
+         "args": {"quick": ["-mode", "c01", "-blocks", "20", "-runs", "4", "-tieruns", "3", "-tieblocks", "14", "-procruns", "1", "-rtruns", "2", "-upgruns", "2"],
+                  "thorough": ["-mode", "c01", "-blocks", "200", "-runs", "6", "-tieruns", "6", "-tieblocks", "60", "-procruns", "2", "-rtruns", "3", "-upgruns", "3"]},
+         "search_args": ["-mode", "c01", "-blocks", "40", "-runs", "8", "-tieruns", "6", "-tieblocks", "30", "-procruns", "1", "-rtruns", "3", "-upgruns", "4"],
          "timeout": 3600},
     ],
     "trusted_base": [
@@ -54,7 +54,7 @@ def post_streams(run):
     e = vcheck.env()
     e["GORACE"] = "halt_on_error=0 exitcode=0 log_path=%s" % os.path.join(outdir, "race")
     cmd = [os.path.join(root, "harness", "bin", "mux-race"), "-mode", "c01", "-seed", str(run.seed), "-out", outdir,
-           "-blocks", "40", "-runs", "3", "-tieruns", "1", "-tieblocks", "16", "-procruns", "0", "-rtruns", "1"]
+           "-blocks", "40", "-runs", "3", "-tieruns", "1", "-tieblocks", "16", "-procruns", "0", "-rtruns", "1", "-upgruns", "1"]
     r = subprocess.run(cmd, stdout=subprocess.PIPE, stderr=subprocess.STDOUT, text=True, env=e, cwd=run.work, timeout=3600)
     sj = os.path.join(outdir, "summary.json")
     if r.returncode != 0 or not os.path.exists(sj):
